@@ -195,13 +195,17 @@ CLAIMED = {
         text="The addition chain is translated from bandersnatch/fp/sqrt.go on every run (lib/gen_chain.py) and must equal "
              "the chain the theorems were checked on. Theorems: p-1 = 2^32 Q with Q odd and the chain's exponents are exactly Q "
              "and (Q+1)/2 (kernel computation on the chain data); for EVERY z the chain computes (z^((Q+1)/2), z^Q) (generic "
-             "interpreter lemma, induction over the chain); sqrt(0)=0; a returned root squares to the input provided the "
-             "dyadic step is sound (named premise dyadic_sound); GetPointFromX is nil exactly when the root is nil, keeps x, "
-             "and returns the lexicographically larger root iff requested; the 256 LUT keys are distinct. PARTIAL: the "
-             "dlog-by-blocks step and 'nil exactly for non-residues' (need Fp^* structure, p prime) are decided by "
+             "interpreter lemma, induction over the chain); sqrt(0)=0; the dlog-by-blocks step invSqrtEqDyadic is characterised "
+             "for EVERY exponent k<2^32 on the subgroup generated by the dyadic root (false iff k odd, else g^(((2^32-k) mod "
+             "2^32)/2): LUT look-ups, byte-wise reconstruction, block products); hence for every z with z^Q in that subgroup: "
+             "a returned root squares to z, nil iff the dlog is odd, every non-zero square gets a root; the premise cannot be "
+             "dropped (kernel-evaluated witness rho=2 outside the subgroup); GetPointFromX is nil exactly when the root is nil, "
+             "keeps x, returns the lexicographically larger root iff requested, recovered point on the curve; the 256 LUT keys "
+             "are distinct. PARTIAL: 'z^Q lies in <g> for all non-zero z' (Fermat + cyclic Fp^*, p prime) is an explicit "
+             "premise; on the code side it is exercised by "
              "correspondence: structured exponents sweeping every byte of each of the 4 blocks, all 2^k-th roots of unity, "
              "squares and non-squares in equal share, with y^2=v and an independent Euler-criterion oracle.",
-        note="invSqrtEqDyadic correctness is a premise, checked differentially.",
+        note="Membership of z^Q in the dyadic subgroup (Fermat, p prime) is a premise; everything else about SqrtPrecomp is proved.",
         tech="translator for the addition chain + Coq proof (generic chain interpreter, modular powers) + differential correspondence", ref="DESIGN.md 6.17"),
     "C18": dict(
         text="Theorems over every commutative ring with partial inverse and EVERY domain size n>=1 (premises: differences of "
